@@ -56,9 +56,13 @@ pub fn encode(src: &[u8], ctx: &Context, state_count: usize, dst: &mut Vec<u8>) 
         }
     }
 
-    for (state, chunk) in states.iter_mut().rev().zip(chunks.iter().rev()) {
-        for syms in chunk.windows(CONTEXT_SIZE).rev() {
-            let (i, j) = (usize::from(syms[0]), usize::from(syms[1]));
+    // The states take turns symbol by symbol (the decoder reads one symbol per state per round), so
+    // walk the positions backwards in the outer loop and the states backwards in the inner loop.
+    let chunk_size = chunks.first().map_or(0, |chunk| chunk.len());
+
+    for k in (1..chunk_size).rev() {
+        for (state, chunk) in states.iter_mut().rev().zip(chunks.iter().rev()) {
+            let (i, j) = (usize::from(chunk[k - 1]), usize::from(chunk[k]));
             let (f, g) = (frequencies[i][j], cumulative_frequencies[i][j]);
             *state = state_renormalize(*state, f, NORMALIZATION_BITS, &mut buf);
             *state = state_step(*state, f, g, NORMALIZATION_BITS);
